@@ -373,7 +373,7 @@ def check_doc(doc, lab, case, ctx, nontrivial=True, key=None):
     judge(m, doc["layout"], den, [(s[1], s[2]) for s in segs], ongrid, bpm_at, site, case, ctx)
 
 
-ROUTES = ["read", "OsuToBMS", "QuaToBMS", "SMToBMS"]
+ROUTES = ["read", "OsuToBMS", "QuaToBMS", "SMToBMS", "write/edit-holds/write", "write/edit-bpm/write"]
 
 
 def check_route(route, ctx):
@@ -386,7 +386,18 @@ def check_route(route, ctx):
     ctx.case()
     ctx.state(("bmsw-route", route), nontrivial=True)
     try:
-        if route == "read":
+        if route.startswith("write/"):
+            # a stale cache would show here: write once, edit the SAME list objects in place, write again
+            m = starts.make("bms", "plain")
+            m.samples = {b"0A": b"a.wav"}
+            m.write()
+            if "holds" in route:
+                m.hits.offset += 2000
+                m.holds.offset += 2000
+                m.holds.length = m.holds.length * 2
+            else:
+                m.bpms.bpm = m.bpms.bpm * 2
+        elif route == "read":
             m = BMSMap.read(starts.BMS_TEXT.split("\n"))
         elif route == "OsuToBMS":
             m = C.OsuToBMS.convert(starts.make("osu", "plain"), move_right_by=1)
